@@ -176,6 +176,62 @@ def check_case(ctx: Ctx, case, rnd):
             ctx.violation(f"C08:{model}:sufficient-statistics-raises", f"{type(e).__name__}: {e}", {"case": case})
 
 
+def check_skyride_serial(ctx: Ctx, rnd, tier):
+    """Skyride on real-valued heterochronous trees with tips sampled BETWEEN coalescent events while several lineages are alive
+    (the integer lattice of the quick tier only has such intervals with a single lineage), and the `cutoff` option of the three
+    grid models built from JSON against the same model with the explicit grid linspace(0, cutoff, K)[1:]."""
+    import torch
+    import torchtree.evolution.coalescent as C
+    from torchtree.core.utils import process_object
+    for it in range(12 if tier == "quick" else 100):
+        n = rnd.randint(4, 8)
+        coal, samp, t, alive = [], [0.0, 0.0, 0.0], 0.0, 3
+        while len(samp) < n or alive > 1:
+            t += rnd.uniform(0.2, 1.0)
+            if len(samp) < n and (alive < 2 or rnd.random() < 0.45):
+                samp.append(round(t, 3))
+                alive += 1
+            else:
+                coal.append(round(t, 3))
+                alive -= 1
+        theta = [rnd.uniform(0.5, 4.0) for _ in coal]
+        sc = sorted(coal)
+        N = lambda u: theta[min(sum(1 for c in sc if c < u), len(theta) - 1)]
+        want = kingman_quad(samp, coal, N, sc)
+        ps, pc = list(samp), list(coal)
+        rnd.shuffle(ps)
+        ctx.add("evaluations")
+        ctx.distinct(("skyride-serial", it))
+        try:
+            got = float(C.PiecewiseConstantCoalescent(torch.tensor(theta)).log_prob(torch.tensor(ps + pc)))
+        except Exception as e:
+            ctx.violation("C08:skyride:raises", f"{type(e).__name__}: {e}", {"samp": ps, "coal": pc})
+            continue
+        if not close(got, want, 1e-9):
+            ctx.violation("C08:skyride:log_prob:serial-between-coalescences", f"skyride: log density {got!r} differs from the Kingman density {want!r}; sampling {ps} "
+                          f"coalescent {pc} theta {theta}", {"samp": ps, "coal": pc, "theta": theta})
+    # the cutoff option: K values <-> knots at linspace(0, cutoff, K)[1:], for the three grid models
+    times = [0.0, 0.0, 0.7, 1.3, 2.9, 4.1, 6.3]
+    events = [1, 1, 1, 0, 1, 0, 0]
+    for typ, extra in (("PiecewiseConstantCoalescentGridModel", {}), ("PiecewiseLinearCoalescentGridModel", {}),
+                       ("PiecewiseExponentialCoalescentGridModel", {"growth": {"id": "g", "type": "Parameter", "tensor": [0.1, -0.2, 0.3, 0.05]}})):
+        K, cutoff = 4, 7.0
+        th = [2.0, 0.8, 3.1, 1.4]
+        theta_js = {"id": "th", "type": "Parameter", "tensor": [th[0]] if "Exponential" in typ else th}
+        grid = torch.linspace(0, cutoff, K)[1:].tolist()
+        ctx.add("evaluations")
+        ctx.distinct(("cutoff", typ))
+        try:
+            a = float(process_object({"id": "m", "type": typ, "theta": theta_js, "cutoff": cutoff, "times": times, "events": events, **extra}, {})())
+            b = float(process_object({"id": "m", "type": typ, "theta": theta_js, "grid": grid, "times": times, "events": events, **extra}, {})())
+        except Exception as e:
+            ctx.cov.setdefault("cutoff_option_not_checked", []).append(f"{typ}: {type(e).__name__}: {str(e)[:80]}")
+            continue
+        if not close(a, b, 1e-9):
+            ctx.violation(f"C08:{typ}:cutoff-grid", f"{typ} built with cutoff {cutoff} and {K} values gives {a!r}; with the explicit grid {grid} it gives {b!r}",
+                          {"type": typ, "cutoff": cutoff})
+
+
 def check_equivalences(ctx: Ctx, rnd, tier):
     """Constant = all pieces equal; scaling law; JSON model classes (times / events data form); batches."""
     import torch
@@ -331,6 +387,7 @@ def run(ctx: Ctx):
             ctx.add("traces_validated_against_impl")
         ctx.sample(cases[len(cases) // 2], limit=4)
     check_equivalences(ctx, rnd, ctx.tier)
+    check_skyride_serial(ctx, rnd, ctx.tier)
     check_nonconstant(ctx, rnd, ctx.tier)
     ctx.cov["rule"] = ("TLC-emitted (sampling times, coalescent times, grid, model) cases evaluated with node heights in three supplied orders; random real-valued "
                        "cases for equivalences / scaling / non-constant demographies; non-trivial = heterochronous or tied event times")
